@@ -77,6 +77,17 @@ type site struct {
 	fStats map[string]int64
 	fHash  map[string]string // redis-gunyu-checkpoint-hash: source replication id → namespace
 
+	// restart / fault schedule of the link writing here (all guarded by the server lock)
+	inLink        *link
+	restartArmed  bool
+	restartAfter  int // units committed since the last frontier write (or since arming) that trigger the orderly stop
+	sinceFrontier int
+	faultArmed    bool
+	faultAfter    int // the n-th EXEC of a link connection after arming is executed and its reply dropped
+	faultFired    bool
+	linkReqs      atomic.Int64 // requests of link connections processed here
+	faultCount    atomic.Int64 // lost-reply faults injected here
+
 	echoSeen atomic.Bool  // a link executed a business command of this site's own origin here
 	gcSeen   atomic.Int64 // stand-alone journal clean-up commands (DEL commit record / ZREM index) a link executed here
 }
@@ -92,12 +103,34 @@ func newSite(name, version, replid string, base int64, wrapSingle int) *site {
 		if r.Cmd == "CLIENT" && len(r.Args) == 2 && strings.EqualFold(string(r.Args[0]), "SETNAME") && strings.HasPrefix(string(r.Args[1]), harnessPrefix) {
 			s.harness[r.Conn] = string(r.Args[1])
 		}
+		if _, own := s.harness[r.Conn]; !own {
+			s.linkReqs.Add(1)
+		}
 	}, func(r *fakeredis.Req) (fakeredis.Reply, bool) {
 		if r.Cmd == "INFO" && len(r.Args) == 1 && strings.EqualFold(string(r.Args[0]), "replication") {
 			return info, true
 		}
 		return nil, false
-	}, nil)
+	}, func(r *fakeredis.Req) bool {
+		// lost reply: the EXEC was executed, the connection dies instead of answering
+		if !s.faultArmed || r.Kind != fakeredis.ReqExec {
+			return false
+		}
+		if _, own := s.harness[r.Conn]; own {
+			return false
+		}
+		if _, isArr := r.Reply.([]fakeredis.Reply); !isArr {
+			return false
+		}
+		s.faultAfter--
+		if s.faultAfter > 0 {
+			return false
+		}
+		s.faultArmed = false
+		s.faultFired = true
+		s.faultCount.Add(1)
+		return true
+	})
 	s.srv.SetOnApplied(func(a *fakeredis.App) {
 		if !a.Write || a.IsErr {
 			return
@@ -108,6 +141,19 @@ func newSite(name, version, replid string, base int64, wrapSingle int) *site {
 		if a.Txn != 0 && a.Cmd == "SET" && len(a.Args) >= 2 && checkpoint.IsBisyncMarkerKey(string(a.Args[0])) {
 			if m, err := checkpoint.DecodeBisyncMarker(string(a.Args[1])); err == nil && m.RecordType == "rdb" {
 				s.rdbTxn[a.Txn] = true
+			}
+		}
+		if len(a.Args) > 0 && a.Cmd == "HSET" {
+			k := string(a.Args[0])
+			switch {
+			case a.Txn == 0 && strings.HasSuffix(k, ":frontier"):
+				s.sinceFrontier = 0
+			case a.Txn != 0 && (checkpoint.IsBisyncCommitKey(k) || checkpoint.IsBisyncLatestKey(k)):
+				s.sinceFrontier++
+				if s.restartArmed && s.sinceFrontier >= s.restartAfter && s.inLink != nil {
+					s.restartArmed = false
+					s.inLink.requestRestart()
+				}
 			}
 		}
 		if a.Txn == 0 && len(a.Args) > 0 && (a.Cmd == "DEL" || a.Cmd == "UNLINK" || a.Cmd == "ZREM") &&
@@ -159,6 +205,52 @@ func (s *site) freeze() {
 			}
 		}
 	})
+}
+
+// armRestart: the link writing here is stopped (orderly) once k units were committed since the
+// last frontier write seen (sync mode: since now), and started again.
+func (s *site) armRestart(k int) {
+	s.srv.With(func([]fakeredis.DB) {
+		s.restartArmed, s.restartAfter, s.sinceFrontier = true, k, 0
+	})
+}
+
+// armFault: the n-th EXEC a link connection sends from now on is executed and not answered.
+func (s *site) armFault(n int) {
+	s.srv.With(func([]fakeredis.DB) {
+		s.faultArmed, s.faultAfter = true, n
+	})
+}
+
+// disarm cancels what has not fired yet.
+func (s *site) disarm() {
+	s.srv.With(func([]fakeredis.DB) {
+		s.restartArmed, s.faultArmed = false, false
+	})
+}
+
+func (s *site) takeFaultFired() bool {
+	f := false
+	s.srv.With(func([]fakeredis.DB) {
+		f = s.faultFired
+		s.faultFired = false
+	})
+	return f
+}
+
+func (s *site) appliedLen() int { return len(s.srv.Applied()) }
+
+// waitLinkQuiet waits until no link connection has sent a request here for a few polls (bounded).
+func (s *site) waitLinkQuiet() {
+	last, stable := s.linkReqs.Load(), 0
+	for i := 0; i < 200 && stable < 5; i++ {
+		time.Sleep(2 * time.Millisecond)
+		if n := s.linkReqs.Load(); n == last {
+			stable++
+		} else {
+			last, stable = n, 0
+		}
+	}
 }
 
 func (s *site) harnessConns() map[int64]string {
@@ -328,11 +420,16 @@ type loopCfg struct {
 	Clients      int  // harness client connections per site
 	OpsPerClient int  // script length (steps) per client
 	LateReverse  bool // link B→A starts after A→B finished its snapshot phase, from a snapshot of B's dataset at that moment
+	// link restarts inside the loop ("" = the link runs uninterrupted): orderly = stopped after
+	// EventK units were committed since the last frontier write seen, and started again;
+	// lost-reply = the EventK-th EXEC of the link is executed and its connection dies unanswered
+	EventAB, EventBA string
+	EventK           int
 }
 
 func (c loopCfg) String() string {
-	return fmt.Sprintf("mode=%s window=%d filter=%s snapshot=%v restore=%v version=%s buf=%d conflict=%v late-reverse=%v clients=%d ops=%d",
-		c.Mode, c.Window, c.Filter, c.Snapshot, c.Restore, c.Version, c.BufSize, c.Conflict, c.LateReverse, c.Clients, c.OpsPerClient)
+	return fmt.Sprintf("mode=%s window=%d filter=%s snapshot=%v restore=%v version=%s buf=%d conflict=%v late-reverse=%v clients=%d ops=%d restart[A→B]=%q restart[B→A]=%q k=%d",
+		c.Mode, c.Window, c.Filter, c.Snapshot, c.Restore, c.Version, c.BufSize, c.Conflict, c.LateReverse, c.Clients, c.OpsPerClient, c.EventAB, c.EventBA, c.EventK)
 }
 
 const (
@@ -410,18 +507,31 @@ func openOutput(c loopCfg, src, dst *site) (*syncer.RedisOutput, error) {
 	return syncer.VerifNewOutput(scfg)
 }
 
+// restart is one link restart inside a loop.
+type restart struct {
+	Kind string // orderly | lost-reply
+	// Mark: length of the destination's effect log when the new incarnation began (after the old
+	// incarnation's connections had gone quiet): executions below Mark belong to earlier incarnations
+	Mark int
+	SP   int64 // offset the new incarnation resumed from
+}
+
 type link struct {
 	name     string // "A→B"
 	src, dst *site
 	ids      []string
 
-	mu     sync.Mutex
-	feeder *liveFeeder
-	ready  chan struct{} // closed once the incremental phase reads the live stream
-	snapOK chan struct{} // closed once the snapshot phase has completed
-	done   chan struct{} // closed when the link's life ended; result holds why (nil = stopped by the harness)
-	result error
-	cancel context.CancelFunc
+	mu         sync.Mutex
+	feeder     *liveFeeder
+	curCancel  context.CancelFunc // cancels the running incarnation
+	restartReq bool               // an orderly stop-and-restart was requested
+	restarts   []restart
+	ready      chan struct{} // closed once the incremental phase reads the live stream
+	readyOnce  sync.Once
+	snapOK     chan struct{} // closed once the snapshot phase has completed
+	done       chan struct{} // closed when the link's life ended; result holds why (nil = stopped by the harness)
+	result     error
+	cancel     context.CancelFunc
 }
 
 func newLink(src, dst *site) *link {
@@ -429,8 +539,11 @@ func newLink(src, dst *site) *link {
 		ready: make(chan struct{}), snapOK: make(chan struct{}), done: make(chan struct{})}
 }
 
-// start runs the link's life in a goroutine, following RedisInput.run(): start-up bookkeeping,
-// StartPoint → Send(snapshot reader) → StartPoint → Send(live log reader).
+// start runs the link's life in a goroutine.  A life is a sequence of incarnations: each one is
+// what a (re)started process does — start-up bookkeeping through syncer.newOutput, StartPoint,
+// (first incarnation only: Send(snapshot reader), StartPoint again), Send(live log reader at the
+// returned offset) — and ends by an orderly stop the schedule asked for (context cancellation),
+// by the error an injected lost reply makes Send return, or by the harness' final stop.
 // snap returns the snapshot of the source and its offset at the moment the link asks for it.
 func (l *link) start(parent context.Context, c loopCfg, snap func() ([]byte, int64)) {
 	ctx, cancel := context.WithCancel(parent)
@@ -442,41 +555,100 @@ func (l *link) start(parent context.Context, c loopCfg, snap func() ([]byte, int
 }
 
 func (l *link) life(ctx context.Context, c loopCfg, snap func() ([]byte, int64)) error {
+	for n := 0; ; n++ {
+		ictx, icancel := context.WithCancel(ctx)
+		l.mu.Lock()
+		l.curCancel = icancel
+		l.mu.Unlock()
+		err := l.incarnation(ictx, c, snap, n)
+		icancel()
+		if ctx.Err() != nil {
+			return nil // stopped by the harness
+		}
+		l.mu.Lock()
+		orderly := l.restartReq
+		l.restartReq = false
+		l.mu.Unlock()
+		kind := ""
+		switch {
+		case orderly:
+			kind = "orderly"
+		case l.dst.takeFaultFired():
+			kind = "lost-reply"
+		default:
+			return err
+		}
+		if n > 8 {
+			return fmt.Errorf("too many restarts; last end: %v", err)
+		}
+		// let the old incarnation's connections drain at the destination before the next start
+		// reads the resume position (what was in flight has then either been executed or dropped)
+		l.dst.waitLinkQuiet()
+		l.mu.Lock()
+		l.restarts = append(l.restarts, restart{Kind: kind, Mark: l.dst.appliedLen(), SP: -1})
+		l.mu.Unlock()
+	}
+}
+
+func (l *link) incarnation(ctx context.Context, c loopCfg, snap func() ([]byte, int64), n int) error {
 	out, err := openOutput(c, l.src, l.dst)
 	if err != nil {
 		return fmt.Errorf("start-up bookkeeping: %w", err)
 	}
 	sp, err := out.StartPoint(ctx, l.ids)
 	if err != nil {
-		return fmt.Errorf("first StartPoint: %w", err)
+		return fmt.Errorf("StartPoint: %w", err)
 	}
-	if sp.Offset >= 0 {
-		return fmt.Errorf("first StartPoint on an empty namespace returned %+v", sp)
+	if n == 0 {
+		if sp.Offset >= 0 {
+			return fmt.Errorf("first StartPoint on an empty namespace returned %+v", sp)
+		}
+		rdb, off := snap()
+		ss := &drive.Session{IDs: l.ids, Out: out, Watch: 60 * time.Second}
+		if err := ss.FullSync(ctx, rdb, off); err != nil {
+			return fmt.Errorf("snapshot phase: %w", err)
+		}
+		sp, err = out.StartPoint(ctx, l.ids)
+		if err != nil {
+			return fmt.Errorf("second StartPoint: %w", err)
+		}
+		if sp.Offset != off {
+			return fmt.Errorf("StartPoint after the snapshot phase returned %+v, snapshot offset %d", sp, off)
+		}
+		close(l.snapOK)
+	} else {
+		if sp.Offset < 0 {
+			return fmt.Errorf("restart %d: StartPoint found no resume position (%+v)", n, sp)
+		}
+		l.mu.Lock()
+		l.restarts[len(l.restarts)-1].SP = sp.Offset
+		l.mu.Unlock()
 	}
-	rdb, off := snap()
-	ss := &drive.Session{IDs: l.ids, Out: out, Watch: 60 * time.Second}
-	if err := ss.FullSync(ctx, rdb, off); err != nil {
-		return fmt.Errorf("snapshot phase: %w", err)
-	}
-	sp, err = out.StartPoint(ctx, l.ids)
-	if err != nil {
-		return fmt.Errorf("second StartPoint: %w", err)
-	}
-	if sp.Offset != off {
-		return fmt.Errorf("StartPoint after the snapshot phase returned %+v, snapshot offset %d", sp, off)
-	}
-	close(l.snapOK)
 	f := newLiveFeeder(l.ids[0], sp.Offset, l.src.prop, c.BufSize)
 	l.mu.Lock()
 	l.feeder = f
 	l.mu.Unlock()
-	close(l.ready)
+	l.readyOnce.Do(func() { close(l.ready) })
 	err = out.Send(ctx, f)
 	f.Close()
-	if ctx.Err() != nil {
-		return nil // stopped by the harness
-	}
 	return fmt.Errorf("incremental phase ended: %v", err)
+}
+
+// requestRestart asks for an orderly stop-and-restart (called from the destination's hooks).
+func (l *link) requestRestart() {
+	l.mu.Lock()
+	l.restartReq = true
+	c := l.curCancel
+	l.mu.Unlock()
+	if c != nil {
+		c()
+	}
+}
+
+func (l *link) restartLog() []restart {
+	l.mu.Lock()
+	defer l.mu.Unlock()
+	return append([]restart{}, l.restarts...)
 }
 
 func (l *link) hold() {
